@@ -107,6 +107,15 @@ def well_formed(res):
         return "FAILED must not carry a Result"
     if st == "FAILED" and "Error" in o and not isinstance(o["Error"], dict):
         return "FAILED Error must be an error object"
+    if st == "FAILED" and "Error" in o:
+        e = o["Error"]
+        for key in ("ErrorMessage", "ErrorType", "ErrorData"):
+            if e.get(key) is not None and not isinstance(e[key], str):
+                return f"Error.{key} must be a string, got {type(e[key]).__name__}"
+        if e.get("StackTrace") is not None and not (isinstance(e["StackTrace"], list) and all(isinstance(x, str) for x in e["StackTrace"])):
+            return "Error.StackTrace must be a list of strings"
+        if set(e) - {"ErrorMessage", "ErrorType", "ErrorData", "StackTrace"}:
+            return "unexpected error keys " + str(sorted(e))
     if st == "PENDING" and ("Result" in o or "Error" in o):
         return "PENDING must carry neither Result nor Error"
     if st not in ("SUCCEEDED", "FAILED", "PENDING"):
@@ -136,7 +145,10 @@ def behaviours():
         "other": [lambda: ValueError("boom"), lambda: KeyError("k"), lambda: type("Custom", (Exception,), {})("c"),
                   lambda: X.ValidationError("v"), lambda: X.InvalidStateError("i"), lambda: X.UserlandError("u"),
                   lambda: X.CallableRuntimeError("m", "T", None, None), lambda: X.SerDesError("s"), lambda: X.OrderedLockError("o"),
-                  lambda: X.DurableExecutionsError("d")],
+                  lambda: X.DurableExecutionsError("d"),
+                  # user exception classes that happen to carry attributes named like the SDK's error fields
+                  lambda: type("ApiError", (Exception,), {"data": b"\x00raw", "stack_trace": 7})("api"),
+                  lambda: type("ApiError2", (Exception,), {"data": {"k": 1}, "error_type": 3, "message": ["m"]})("api2")],
         "execution": [lambda: X.ExecutionError("e"), lambda: X.CallbackError("cb"), lambda: X.NonDeterministicExecutionError("nd")],
         "invocation": [lambda: X.InvocationError("i"), lambda: X.StepInterruptedError("si"), lambda: X.BotoClientError("b"),
                        lambda: X.GetExecutionStateError("g")],
@@ -190,6 +202,19 @@ def run(ctx):
                 else:
                     q.update(exc="bgOther")
                 cases.append((f"step-fault@{at}|{fn}", res, q))
+    # an ordinary user error raised inside a (non-retried) step, including the attribute-carrying classes
+    from aws_durable_execution_sdk_python.config import StepConfig
+    from aws_durable_execution_sdk_python.retries import RetryDecision
+    for n, mk in enumerate([lambda: ValueError("in-step"),
+                            lambda: type("ApiError", (Exception,), {"data": b"\x00raw", "stack_trace": 7})("api"),
+                            lambda: type("ApiError2", (Exception,), {"data": {"k": 1}, "error_type": 3, "message": ["m"]})("api2")]):
+        def h(ev, c, mk=mk):
+            def body(sc):
+                raise mk()
+            return c.step(body, name="p:1", config=StepConfig(retry_strategy=lambda e, a: RetryDecision.no_retry()))
+        for seed in range(ctx.scale(1, 4)):
+            res = run_wrapper(h, seed=ctx.rng.randrange(1 << 30))
+            cases.append((f"step-raise:other:{n}|ok", res, {"c": "outcome.wrapper", "h": "raised", "exc": "other", "large": False, "ck": "ok"}))
     answers = ctx.driver.ask_many([q for _, _, q in cases]) if ctx.driver and ctx.driver.ok else [None] * len(cases)
     for (name, res, q), a in zip(cases, answers):
         got = out_name(res)
